@@ -247,6 +247,17 @@ def run(rep, tier="quick", srcdir=None, only=None):
         # a parked dispatch_sync waiter must only be released by the real lock hand-off (shared with C05)
         from . import C05
         C05.rule_WR3(rep, ir.Program(build.facts_for(["shims/lock"], srcdir=srcdir)))
+    # a serial queue that is the TARGET of other queues stays serial only if every level of a hierarchy is acquired and released
+    # level by level and the role bits that steer the hand-off follow the target (shared with C03)
+    from . import C03
+    if want("C03-MP2"):
+        C03.rule_MP2(rep, prog, q)
+    if want("C03-MP5"):
+        C03.rule_MP5(rep, prog, q)
+    if want("C03-TB6"):
+        C03.rule_TB6(rep, prog, q)
+    if want("C03-MP9"):
+        C03.rule_MP9(rep, prog, q)
 
 
 def run_thorough(rep, srcdir=None, only=None):
